@@ -442,7 +442,7 @@ def shard(i, n, tier, seed, rec, hb):
     pristine = common.Pristine(lambda req: first_dump(pvl, req[0], req[1]))
     per = 4000 if tier == "quick" else 800000
     try:
-        for dialect in DIALECTS:
+        for dialect in common.rotated(DIALECTS, i):
             for j in range(i, per, n):
                 hb.beat()
                 # (thorough: every 8th case is compared with the pristine copy)
